@@ -1090,4 +1090,341 @@ theorem locaLong_traps_at : locaLong [4294967295, 1] 0 = none := by decide
 theorem locaShort_traps_at : locaShort [4294967294, 2] 0 = none := by decide
 example : locaShort [3, 5, 0, 131054] 0 = some [2, 5, 5, 65532] := by decide
 
+/-! ## read-fonts/src/tables/variations.rs — `DeltaSetIndexMap::get` -/
+
+def U8 (x : Int) : Prop := 0 ≤ x ∧ x ≤ 255
+def U32 (x : Int) : Prop := 0 ≤ x ∧ x ≤ 4294967295
+
+theorem bitField_range (x : Int) (lo n : Nat) : 0 ≤ bitField x lo n ∧ bitField x lo n < 2 ^ n := by
+  have hp : (0 : Int) < 2 ^ n := Int.pow_pos (by omega)
+  exact ⟨Int.emod_nonneg _ (Int.ne_of_gt hp), Int.emod_lt_of_pos _ hp⟩
+
+/-- `entry_size` is `1 + bits[5:4]`: the raw `>> 4` and `+ 1` in `u8` never trap (any bits). -/
+theorem entrySize_eq (bits : Int) : entrySize bits = some (bitField bits 4 2 + 1) := by
+  have h := bitField_range bits 4 2
+  unfold entrySize
+  generalize bitField bits 4 2 = k at h
+  have h4 : (2 : Int) ^ 2 = 4 := by decide
+  rw [h4] at h
+  have hk : k = 0 ∨ k = 1 ∨ k = 2 ∨ k = 3 := by omega
+  rcases hk with rfl | rfl | rfl | rfl <;> decide
+
+theorem entrySize_range (bits : Int) : ∃ es, entrySize bits = some es ∧ 1 ≤ es ∧ es ≤ 4 := by
+  have h := bitField_range bits 4 2
+  have h4 : (2 : Int) ^ 2 = 4 := by decide
+  rw [h4] at h
+  exact ⟨_, entrySize_eq bits, by omega, by omega⟩
+
+/-- `bit_count` is `1 + bits[3:0]` ∈ 1..16. -/
+theorem bitCount_range (bits : Int) : ∃ bc, bitCount bits = some bc ∧ 1 ≤ bc ∧ bc ≤ 16 := by
+  have h := bitField_range bits 0 4
+  have h16 : (2 : Int) ^ 4 = 16 := by decide
+  rw [h16] at h
+  refine ⟨bitField bits 0 4 + 1, ?_, by omega, by omega⟩
+  simp only [bitCount, IntTy.add]
+  exact chk_u8 (by omega)
+
+/-- `1 << bit_count` in `u32` for the 16 possible bit counts: a power of two ≥ 2, so the raw `- 1`
+that builds the inner-index mask cannot underflow. -/
+theorem shl_one_bitCount (bc : Int) (h : 1 ≤ bc ∧ bc ≤ 16) :
+    ∃ v, u32.shl 1 bc = some v ∧ 2 ≤ v ∧ v ≤ 65536 := by
+  have hb : bc = 1 ∨ bc = 2 ∨ bc = 3 ∨ bc = 4 ∨ bc = 5 ∨ bc = 6 ∨ bc = 7 ∨ bc = 8 ∨ bc = 9 ∨ bc = 10 ∨
+      bc = 11 ∨ bc = 12 ∨ bc = 13 ∨ bc = 14 ∨ bc = 15 ∨ bc = 16 := by omega
+  rcases hb with rfl | rfl | rfl | rfl | rfl | rfl | rfl | rfl | rfl | rfl | rfl | rfl | rfl | rfl | rfl | rfl <;>
+    exact ⟨_, rfl, by decide, by decide⟩
+
+theorem dsimClamp_range (mc ix : Int) (hmc : U32 mc) (hix : U32 ix) :
+    ∃ v, dsimClamp mc ix = some v ∧ 0 ≤ v ∧ v ≤ 4294967295 := by
+  unfold U32 at *
+  have hm : 0 ≤ u32.saturatingSub mc 1 ∧ u32.saturatingSub mc 1 ≤ 4294967295 := by
+    simp only [IntTy.saturatingSub, IntTy.sat, u32]
+    by_cases h1 : mc - 1 < 0
+    · simp [h1]
+    · by_cases h2 : mc - 1 > 4294967295
+      · simp [h1, h2]
+      · simp [h1, h2]; omega
+  generalize hmm : u32.saturatingSub mc 1 = m at hm
+  refine ⟨imin ix m, ?_, ?_, ?_⟩
+  · simp only [dsimClamp, hmm]; rfl
+  · unfold imin; split <;> omega
+  · unfold imin; split <;> omega
+
+/-- **`DeltaSetIndexMap::get` never traps**: for every entry format byte, every `mapCount` (including 0),
+every lookup index and every data array. -/
+theorem dsimGet_no_trap (ef mc ix : Int) (data : List Int) (hmc : U32 mc) (hix : U32 ix) :
+    (dsimGet ef mc ix data).isSome := by
+  obtain ⟨es, hes, hes1, hes4⟩ := entrySize_range ef
+  obtain ⟨v, hv, hv0, hv1⟩ := dsimClamp_range mc ix hmc hix
+  obtain ⟨bc, hbc, hbc1, hbc16⟩ := bitCount_range ef
+  obtain ⟨one, hone, hone2, hone3⟩ := shl_one_bitCount bc ⟨hbc1, hbc16⟩
+  have hoff : usize.mul v es = some (v * es) := by
+    have he : es = 1 ∨ es = 2 ∨ es = 3 ∨ es = 4 := by omega
+    simp only [IntTy.mul]
+    rcases he with rfl | rfl | rfl | rfl <;> exact chk_usize (by omega)
+  have hsub : u32.sub one 1 = some (one - 1) := by
+    simp only [IntTy.sub]; exact chk_u32 (by omega)
+  simp only [dsimGet, dsimGetWith, hes, hv, hoff, hbc, bind, Option.bind]
+  cases readBE data (v * es).toNat es.toNat with
+  | none => rfl
+  | some entry =>
+    have h1 : u32.shr entry bc = some (entry / 2 ^ bc.toNat) := if_pos (by simp only [u32]; omega)
+    simp only [h1, hone, hsub]
+    rfl
+
+/-- with a raw `map_count - 1` the clamp traps exactly for an empty map. -/
+theorem dsimClampRawSub_isSome_iff (mc ix : Int) (hmc : U32 mc) :
+    (dsimClampRawSub mc ix).isSome ↔ 1 ≤ mc := by
+  unfold U32 at hmc
+  simp only [dsimClampRawSub, IntTy.sub, bind, Option.bind]
+  by_cases h : 1 ≤ mc
+  · rw [chk_u32 (by omega)]; simp [h]
+  · have : u32.chk (mc - 1) = none := if_neg (by simp only [u32]; omega)
+    rw [this]; simp [h]
+
+theorem dsimGetRawSub_traps_at : dsimGetRawSub 0 0 0 [] = none := by decide
+/-- the code as it is: an empty map is a read error, not a trap. -/
+example : dsimGet 0 0 7 [] = some none := by decide
+example : dsimGet 0x11 0 4294967295 [] = some none := by decide
+example : dsimGet 0x13 3 9 [0, 0x12, 0, 0x25, 0xFF, 0xFF] = some (some (4095, 15)) := by decide
+
+
+/-! ## SDS / SDB and DELTAP / DELTAC (skrifa hint engine) -/
+
+/-- the unsigned range check of `op_sds` admits exactly 0..6. -/
+theorem opSds_range (n s : Int) (h : opSds n = some s) : 0 ≤ s ∧ s ≤ 6 := by
+  unfold opSds at h
+  split at h
+  · cases h
+  · rename_i hn
+    cases h
+    simp only [IntTy.cast, IntTy.wrap, u32, u16] at hn ⊢
+    omega
+
+theorem opSdb_range (n : Int) : U16 (opSdb n) := wrap_u16_range n
+
+/-- the shift factor `1 << (6 - delta_shift as i32)`: defined exactly for delta shifts 0..6
+(`delta_shift` is a `u16`). -/
+theorem deltaFactor_isSome_iff (shift : Int) (hs : U16 shift) :
+    (do let sh ← i32.sub 6 (i32.cast shift); i32.shl 1 sh : Option Int).isSome ↔ shift ≤ 6 := by
+  unfold U16 at hs
+  have hcs : i32.cast shift = shift := wrap_i32_id (by omega)
+  have hsh : i32.sub 6 (i32.cast shift) = some (6 - shift) := by
+    rw [hcs]; simp only [IntTy.sub]; exact chk_i32 (by omega)
+  simp only [hsh, bind, Option.bind]
+  by_cases h : shift ≤ 6
+  · have e : i32.shl 1 (6 - shift) = some (i32.wrap (1 * 2 ^ (6 - shift).toNat)) :=
+      if_pos (by simp only [i32]; omega)
+    simp [e, h]
+  · have e : i32.shl 1 (6 - shift) = none := if_neg (by simp only [i32]; omega)
+    simp [e, h]
+
+/-- the seven values of the factor -/
+theorem deltaFactor_values (shift : Int) (hs : 0 ≤ shift ∧ shift ≤ 6) :
+    ∃ f, i32.shl 1 (6 - shift) = some f ∧ 1 ≤ f ∧ f ≤ 64 := by
+  have hsv : shift = 0 ∨ shift = 1 ∨ shift = 2 ∨ shift = 3 ∨ shift = 4 ∨ shift = 5 ∨ shift = 6 := by omega
+  rcases hsv with rfl | rfl | rfl | rfl | rfl | rfl | rfl <;> exact ⟨_, rfl, by decide, by decide⟩
+
+/-- does the exception with argument `b` apply at `ppem` (`ppem == ((b & 0xF0) >> 4) + variant + delta_base`
+in `u32`)? -/
+def deltaApplies (ppem base variant b : Int) : Prop :=
+  u32.cast ppem = bitField (u32.cast b) 4 4 + (variant + base)
+
+/-- **exact trap characterisation of one DELTAP / DELTAC exception** over the whole `u16` range of the
+delta shift: it traps iff the exception applies at the current ppem and the shift exceeds 6. -/
+theorem deltaException_isSome_iff (ppem base shift variant b : Int) (hb : U16 base) (hs : U16 shift)
+    (hv : variant = 0 ∨ variant = 16 ∨ variant = 32) :
+    (deltaException ppem base shift variant b).isSome ↔ (¬ deltaApplies ppem base variant b ∨ shift ≤ 6) := by
+  unfold U16 at hb hs
+  unfold deltaApplies deltaException
+  have hk := bitField_range (u32.cast b) 4 4
+  have hl := bitField_range (u32.cast b) 0 4
+  have h16 : (2 : Int) ^ 4 = 16 := by decide
+  rw [h16] at hk hl
+  generalize bitField (u32.cast b) 4 4 = k at hk ⊢
+  generalize bitField (u32.cast b) 0 4 = lo at hl ⊢
+  have hcb : u32.cast base = base := wrap_u32_id (by omega)
+  have hbias : u32.add variant (u32.cast base) = some (variant + base) := by
+    rw [hcb]; simp only [IntTy.add]; exact chk_u32 (by omega)
+  have hc0 : u32.shr (k * 16) 4 = some k := by
+    have h2 : (2 : Int) ^ (4 : Int).toNat = 16 := by decide
+    have : (k * 16) / 2 ^ (4 : Int).toNat = k := by rw [h2]; omega
+    have e : u32.shr (k * 16) 4 = some ((k * 16) / 2 ^ (4 : Int).toNat) := if_pos (by simp only [u32]; omega)
+    rw [e, this]
+  have hc : u32.add k (variant + base) = some (k + (variant + base)) := by
+    simp only [IntTy.add]; exact chk_u32 (by omega)
+  simp only [hbias, hc0, hc, bind, Option.bind]
+  by_cases happ : u32.cast ppem = k + (variant + base)
+  · simp only [happ, if_true, not_true_eq_false, false_or]
+    have hb1 : i32.sub lo 8 = some (lo - 8) := by simp only [IntTy.sub]; exact chk_i32 (by omega)
+    have hcs : i32.cast shift = shift := wrap_i32_id (by omega)
+    have hsh : i32.sub 6 (i32.cast shift) = some (6 - shift) := by
+      rw [hcs]; simp only [IntTy.sub]; exact chk_i32 (by omega)
+    simp only [hb1, hsh]
+    by_cases h6 : shift ≤ 6
+    · obtain ⟨f, hf, hf1, hf64⟩ := deltaFactor_values shift ⟨hs.1, h6⟩
+      have hmul : ∀ x : Int, -8 ≤ x → x ≤ 8 → i32.mul x f = some (x * f) := by
+        intro x hx1 hx2
+        simp only [IntTy.mul]
+        apply chk_i32
+        have h1 : x * f ≥ -8 * f := Int.mul_le_mul_of_nonneg_right hx1 (by omega)
+        have h2 : x * f ≤ 8 * f := Int.mul_le_mul_of_nonneg_right hx2 (by omega)
+        omega
+      simp only [hf, h6, iff_true]
+      split
+      · have ha : i32.add (lo - 8) 1 = some (lo - 8 + 1) := by
+          simp only [IntTy.add]; exact chk_i32 (by omega)
+        simp [ha, hmul (lo - 8 + 1) (by omega) (by omega)]
+      · simp [pure, hmul (lo - 8) (by omega) (by omega)]
+    · have hn : i32.shl 1 (6 - shift) = none := if_neg (by simp only [i32]; omega)
+      simp only [hn, h6, iff_false]
+      split
+      · have ha : i32.add (lo - 8) 1 = some (lo - 8 + 1) := by
+          simp only [IntTy.add]; exact chk_i32 (by omega)
+        simp [ha]
+      · simp [pure]
+  · simp [happ]
+
+/-- **one DELTAP / DELTAC exception never traps** when the delta shift is in the range `op_sds`
+admits: for every ppem, delta base, variant bias and exception argument. -/
+theorem deltaException_no_trap (ppem base shift variant b : Int) (hb : U16 base)
+    (hs : 0 ≤ shift ∧ shift ≤ 6) (hv : variant = 0 ∨ variant = 16 ∨ variant = 32) :
+    (deltaException ppem base shift variant b).isSome :=
+  (deltaException_isSome_iff ppem base shift variant b hb ⟨hs.1, by omega⟩ hv).2 (Or.inr hs.2)
+
+/-- **SDB / SDS followed by a DELTA instruction never traps**, whatever the operands of SDB and SDS
+(as the code has it: unsigned range check in SDS). -/
+theorem deltaProgram_no_trap (ppem : Int) (sdb sds : Option Int) (variant b : Int)
+    (hv : variant = 0 ∨ variant = 16 ∨ variant = 32) : (deltaProgram ppem sdb sds variant b).isSome := by
+  have key : ∀ base, U16 base →
+      (match sds with
+        | none => (deltaException ppem base 3 variant b).map some
+        | some n =>
+          match opSds n with
+          | none => some none
+          | some sh => (deltaException ppem base sh variant b).map some).isSome := by
+    intro base hbase
+    cases sds with
+    | none =>
+      have := deltaException_no_trap ppem base 3 variant b hbase ⟨by decide, by decide⟩ hv
+      simp only [Option.isSome_map]; exact this
+    | some n =>
+      simp only []
+      cases hn : opSds n with
+      | none => rfl
+      | some sh =>
+        have hr := opSds_range n sh hn
+        have := deltaException_no_trap ppem base sh variant b hbase hr hv
+        simp only [Option.isSome_map]; exact this
+  unfold deltaProgram deltaProgramWith
+  cases sdb with
+  | none => exact key 9 ⟨by decide, by decide⟩
+  | some n => exact key (opSdb n) (opSdb_range n)
+
+/-- with a SIGNED range check SDS accepts a negative operand and stores 65535 … -/
+theorem opSdsSigned_accepts_negative : opSdsSigned (-1) = some 65535 := by decide
+/-- … and the untouched DELTA site then traps as soon as an exception applies (ppem 9 = delta base 9 +
+nibble 0): the witness the harness replays on the real interpreter. -/
+theorem deltaProgramSigned_traps_at : deltaProgramWith opSdsSigned 9 none (some (-1)) 0 0 = none := by decide
+example : deltaProgram 9 none (some (-1)) 0 0 = some none := by decide
+example : deltaProgram 9 none none 0 0 = some (some (some (-64))) := by decide
+example : deltaProgram 12 (some 3) (some 6) 0 0x9F = some (some (some 8))  := by decide
+example : deltaProgram 10 none none 0 0 = some (some none) := by decide
+
+/-! ## incremental-font-transfer/src/patchmap.rs — format 2 entry ids -/
+
+def I24 (x : Int) : Prop := -8388608 ≤ x ∧ x ≤ 8388607
+def OptI24 (d : Option Int) : Prop := ∀ x, d = some x → I24 x
+
+theorem f2NewEntryIndex_spec (last : Int) (delta : Option Int) (hl : U32 last) (hd : OptI24 delta) :
+    f2NewEntryIndex last delta =
+      some (if last + 1 + delta.getD 0 < 0 then .negative
+            else if last + 1 + delta.getD 0 > 4294967295 then .tooBig else .ok (last + 1 + delta.getD 0)) := by
+  unfold U32 at hl
+  have hdd : I24 (delta.getD 0) := by
+    cases delta with
+    | none => exact ⟨by decide, by decide⟩
+    | some x => exact hd x rfl
+  unfold I24 at hdd
+  unfold f2NewEntryIndex
+  generalize delta.getD 0 = d at hdd ⊢
+  have h1 : i64.add last 1 = some (last + 1) := by simp only [IntTy.add]; exact chk_i64 (by omega)
+  have h2 : i64.add (last + 1) d = some (last + 1 + d) := by simp only [IntTy.add]; exact chk_i64 (by omega)
+  simp only [h1, h2, bind, Option.bind]
+  by_cases c1 : last + 1 + d < 0
+  · simp [c1, pure]
+  · by_cases c2 : last + 1 + d > 4294967295
+    · simp [c1, c2, pure]
+    · simp [c1, c2, pure]
+
+/-- **`compute_format2_new_entry_index` never traps** (the i64 path): for every previous id and every
+Int24 delta, present or absent. -/
+theorem f2NewEntryIndex_no_trap (last : Int) (delta : Option Int) (hl : U32 last) (hd : OptI24 delta) :
+    (f2NewEntryIndex last delta).isSome := by
+  rw [f2NewEntryIndex_spec last delta hl hd]; rfl
+
+/-- the 32-bit variant (`last_entry_index + 1` in `u32`) traps exactly when the previous id is
+`u32::MAX` … -/
+theorem f2NewEntryIndexU32_isSome_iff (last : Int) (delta : Option Int) (hl : U32 last) :
+    (f2NewEntryIndexU32 last delta).isSome ↔ last ≠ 4294967295 := by
+  unfold U32 at hl
+  unfold f2NewEntryIndexU32
+  by_cases h : last = 4294967295
+  · subst h
+    have : u32.add 4294967295 1 = none := by decide
+    simp [this]
+  · have e : u32.add last 1 = some (last + 1) := by simp only [IntTy.add]; exact chk_u32 (by omega)
+    simp only [e, bind, Option.bind, h, ne_eq, not_false_eq_true, iff_true]
+    by_cases c1 : last + 1 + delta.getD 0 < 0
+    · simp [c1, pure]
+    · by_cases c2 : last + 1 + delta.getD 0 > 4294967295
+      · simp [c1, c2, pure]
+      · simp [c1, c2, pure]
+
+/-- … and agrees with the i64 path everywhere else (so no test on other inputs can tell them apart). -/
+theorem f2NewEntryIndexU32_agrees (last : Int) (delta : Option Int) (hl : U32 last) (hd : OptI24 delta)
+    (h : last ≠ 4294967295) : f2NewEntryIndexU32 last delta = f2NewEntryIndex last delta := by
+  rw [f2NewEntryIndex_spec last delta hl hd]
+  unfold U32 at hl
+  unfold f2NewEntryIndexU32
+  have e : u32.add last 1 = some (last + 1) := by simp only [IntTy.add]; exact chk_u32 (by omega)
+  simp only [e, bind, Option.bind]
+  by_cases c1 : last + 1 + delta.getD 0 < 0
+  · simp [c1, pure]
+  · by_cases c2 : last + 1 + delta.getD 0 > 4294967295
+    · simp [c1, c2, pure]
+    · simp [c1, c2, pure]
+
+theorem f2NewEntryIndexU32_traps_at : f2NewEntryIndexU32 4294967295 (some (-5)) = none := by decide
+example : f2NewEntryIndex 4294967295 (some (-5)) = some (.ok 4294967291) := by decide
+example : f2NewEntryIndex 4294967295 none = some .tooBig := by decide
+example : f2NewEntryIndex 0 (some (-2)) = some .negative := by decide
+
+/-- **decoding the ids of a whole run of entries never traps**: every id that is produced is again a
+`u32`, so the invariant carries through any number of entries. -/
+theorem f2EntryIds_no_trap (deltas : List (Option Int)) (hd : ∀ d ∈ deltas, OptI24 d) :
+    (f2EntryIds deltas).isSome := by
+  unfold f2EntryIds
+  have key : ∀ (ds : List (Option Int)) (last : Int), (∀ d ∈ ds, OptI24 d) → U32 last →
+      (f2EntryIdsWith f2NewEntryIndex ds last).isSome := by
+    intro ds
+    induction ds with
+    | nil => intro last _ _; rfl
+    | cons d rest ih =>
+      intro last hds hl
+      have hd0 : OptI24 d := hds d (List.mem_cons_self ..)
+      have hrest : ∀ x ∈ rest, OptI24 x := fun x hx => hds x (List.mem_cons_of_mem _ hx)
+      unfold f2EntryIdsWith
+      rw [f2NewEntryIndex_spec last d hl hd0]
+      by_cases h1 : last + 1 + d.getD 0 < 0
+      · simp [h1]
+      · by_cases h2 : last + 1 + d.getD 0 > 4294967295
+        · simp [h1, h2]
+        · simp only [h1, h2, if_false]
+          have hv : U32 (last + 1 + d.getD 0) := ⟨by omega, by omega⟩
+          have := ih (last + 1 + d.getD 0) hrest hv
+          simp only [Option.isSome_map]; exact this
+  exact key deltas 0 hd ⟨by decide, by decide⟩
+
+example : f2EntryIds [some (-1), some 5, some 7, none] = some ([0, 6, 14, 15], false) := by decide
+
 end FontVerif.C20
